@@ -209,11 +209,16 @@ func (m *Model) itemErrs(i int) []MErr {
 			errs = append(errs, MErr{Class: "bind-impl", Types: []string{m.K(it.Conc), m.K(it.Out)}})
 		}
 	case "value":
-		if IsInterface(m.S, it.Out) {
+		if it.ExprClass == "unsafe" {
+			errs = append(errs, MErr{Class: "value-unsafe"})
+		} else if IsInterface(m.S, it.Out) {
 			errs = append(errs, MErr{Class: "value-iface"})
 		}
 	case "ivalue":
-		if !IsInterface(m.S, it.Out) {
+		if it.ExprClass == "unsafe" {
+			// the statement covers both marker functions (see known finding D20)
+			errs = append(errs, MErr{Class: "value-unsafe"})
+		} else if !IsInterface(m.S, it.Out) {
 			errs = append(errs, MErr{Class: "ivalue-notiface"})
 		} else if !Implements(m.S, it.Conc, it.Out) {
 			errs = append(errs, MErr{Class: "ivalue-impl", Types: []string{m.K(it.Conc), m.K(it.Out)}})
@@ -477,6 +482,9 @@ type Verdict struct {
 	// PartialFields is set when a wire.FieldsOf lists several fields of which
 	// only some are used: the documents leave the verdict open.
 	PartialFields bool
+	// Either is set when the verdict is left open by the documents (e.g. a
+	// harmless value expression outside the documented forms).
+	Either bool
 }
 
 // Classes returns the set of expected error classes.
@@ -636,6 +644,13 @@ func (m *Model) Judge(i int) *Verdict {
 			}
 			if it.Pkg != 0 && !exported(it.Name) {
 				v.Errs = append(v.Errs, MErr{Class: "inaccessible", Note: it.Name})
+			}
+		case "value", "ivalue":
+			if it.ExprClass == "inaccessible" {
+				v.Errs = append(v.Errs, MErr{Class: "inaccessible", Note: "value expression"})
+			}
+			if it.ExprClass == "either" {
+				v.Either = true
 			}
 		case "struct":
 			d := m.StructDecl(it.Out)
